@@ -1678,6 +1678,11 @@ func (a *Authenticator) negotiateSecurity(negotiation *SecurityNegotiation) erro
 
 	// Find compatible crypto method - server preference order
 	for _, serverCrypto := range negotiation.ServerConfig.CryptoMethods {
+		if !isAESGCM(serverCrypto) {
+			// A cipher whose frames cannot be produced is not a mutually usable
+			// cipher (same rule as for unimplemented authentication methods).
+			continue
+		}
 		for _, clientCrypto := range negotiation.ClientConfig.CryptoMethods {
 			if serverCrypto == clientCrypto {
 				negotiation.NegotiatedCrypto = serverCrypto
